@@ -396,6 +396,21 @@ async fn check_overlapping_discovery(cx: &Ctx) {
 }
 
 
+
+/// A fleet of 6 000 targets with 6 000 different addresses crosses the boundary three times on one adapter instance
+/// (and once more in reverse order): every one of them arrives with its own identifier, address and metadata every
+/// time - whatever the adapter remembers between calls.
+async fn check_large_fleet(cx: &Ctx) {
+    let peer = start_peer().await;
+    let fleet: Vec<WireTarget> = (0..6_000u32)
+        .map(|i| WireTarget { id: format!("gs-{i}"), host: Some(if i % 3 == 2 { format!("2001:db8:{:x}::{:x}", i / 256, i % 256 + 1) } else { format!("10.{}.{}.{}", i / 62_500, (i / 250) % 250, i % 250 + 1) }), port: 20_000 + i % 30_000, meta: vec![("n".into(), i.to_string())] })
+        .collect();
+    for round in 0..4 {
+        let list: Vec<WireTarget> = if round == 3 { fleet.iter().rev().cloned().collect() } else { fleet.clone() };
+        check_discovery(cx, &peer, &list).await;
+    }
+}
+
 /// The strategy service answers the first request(s) of a login with an error status (UNAVAILABLE, DEADLINE_EXCEEDED,
 /// INTERNAL, RESOURCE_EXHAUSTED) and is healthy afterwards: whatever the adapter does about it - give up, ask again -
 /// every request that reaches the service carries the candidates, player and addresses unaltered, and so does the
@@ -725,6 +740,7 @@ pub fn run(cli: Cli) -> ! {
     let whole = crate::net::run_local(async {
         check_overlapping_discovery(&cx).await;
         check_select_after_errors(&cx).await;
+        check_large_fleet(&cx).await;
         check_whole_connections(&cx).await
     });
     cx.rep.set("whole_connections_through_the_listener", json!(whole));
